@@ -346,6 +346,14 @@ func (r *PaginatedResourceRepository[ResourceType, OptionsType]) Paginate(
 	)
 	switch v := any(paginationQuery).(type) {
 	case OffsetPaginatedQuery[OptionsType]:
+		// the column of a cursor is client input and ends up in the ORDER BY clause
+		_, field := r.resourceHandler.Schema().GetFieldByNameOrAlias(v.Column)
+		if field == nil {
+			return nil, fmt.Errorf("invalid property '%s' for pagination", v.Column)
+		}
+		if !field.IsPaginated {
+			return nil, newErrNotPaginatedField(v.Column)
+		}
 		paginator = newOffsetPaginator[ResourceType, OptionsType](v)
 		resourceQuery = v.Options
 	case ColumnPaginatedQuery[OptionsType]:
